@@ -2,11 +2,12 @@
 CONSTANTS RepointRoles <- RolesNoDecl
  MaxEdits = 1
  MaxEditsFile = 1
- InsertFront = FALSE
+ Wide = FALSE
  NewNames <- NamesQuick
  OpKinds <- AllOpKinds
  ProgIds <- AllProgs
  SimMode = FALSE
+ LoopVarByName = FALSE
 INIT Init
 NEXT Next
 INVARIANT InvOwnSymbols
